@@ -328,14 +328,14 @@ def rtsp_line(items):
     return "c06.rtsp %s" % (";".join(x.text() if isinstance(x, Msg) else x for x in items) if items else "-")
 
 
-def e2e_line(frag_ms, hls, rtsp, msgs, joins):
+def e2e_line(frag_ms, hls, rtsp, msgs, joins, wk=0, tsgop=0):
     """joins: {index: ["Jt:1", "Jr:5", ...]} inserted in front of message `index` (len(msgs) = after the last one)"""
     items = []
     for i, m in enumerate(msgs):
         items += joins.get(i, [])
         items.append(m.text() if isinstance(m, Msg) else m)
     items += joins.get(len(msgs), [])
-    return "c06.e2e %d:%d:%d %s" % (frag_ms, hls, rtsp, ";".join(items) if items else "-")
+    return "c06.e2e %d:%d:%d:%d:%d %s" % (frag_ms, hls, rtsp, wk, tsgop, ";".join(items) if items else "-")
 
 
 def rand_script(rng, n, p):
@@ -538,7 +538,36 @@ def gen_cases(tier, rng):
             joins.setdefault(rng.choice([0, 0, rng.randrange(len(ms) + 1)]), []).append("Jt:%d" % next(ids))
         for _ in range(rng.randrange(0, 3)):
             joins.setdefault(rng.choice([0, rng.randrange(len(ms) + 1)]), []).append("Jr:%d" % next(ids))
-        yield Case(e2e_line(rng.choice([100, 400, 1000, 3000]), rng.choice([1, 1, 1, 0]), 1, ms, joins), cls="e2e")
+        yield Case(e2e_line(rng.choice([100, 400, 1000, 3000]), rng.choice([1, 1, 1, 0]), 1, ms, joins,
+                            wk=rng.choice([0, 1, 1]), tsgop=rng.choice([0, 1, 1, 2])), cls="e2e")
+    # joins in the middle of longer streams: RTSP players with / without OutWaitKeyFrameFlag, HTTP-TS with / without GOP cache
+    n_join = 400 if thorough else 30
+    for i in range(n_join):
+        vcodec = rng.choice(["avc", "avc", "hevc"])
+        acodec = rng.choice(["aac", "aac", "opus", None])
+        opts = dict(sizes=rng.choice([[1, 2, 5, 40], [5, 160, 200, 1300], [3, 2500, 30]]), bframes=rng.random() < 0.3,
+                    inband=rng.choice([0, 0.5]), sei=rng.choice([0, 0.4]), aud=rng.choice([0, 0.5]), sfi=rng.choice([3, 4, 8]),
+                    fps_ms=rng.choice([33, 40, 200]), hevc_mode=rng.choice(["classic", "ex1"]), gop=rng.choice([2, 3, 5]),
+                    nals_max=rng.choice([1, 3]), audio_sizes=rng.choice([[3, 60, 200], [400, 700]]), audio_ms=rng.choice([None, 60]))
+        ms = gen_stream(rng, vcodec, acodec, rng.randrange(10, 24), rng.randrange(8, 30) if acodec else 0, opts)
+        joins = {}
+        ids = iter(range(1, 20))
+        for _ in range(rng.randrange(1, 4)):
+            joins.setdefault(rng.randrange(2, len(ms) + 1), []).append("Jt:%d" % next(ids))
+        for _ in range(rng.randrange(1, 4)):
+            joins.setdefault(rng.randrange(2, len(ms) + 1), []).append("Jr:%d" % next(ids))
+        yield Case(e2e_line(rng.choice([100, 400, 3000]), rng.choice([1, 0]), 1, ms, joins,
+                            wk=rng.choice([0, 1, 1]), tsgop=rng.choice([0, 1, 2])), cls="e2e-join")
+    # time stamp jumps while the remuxer holds audio, HLS on: FlushAudio from inside openFragment feeds audio of the
+    # other side of the jump back into hls.Muxer (forced splits nested in a forced split)
+    n_jump = 120 if thorough else 10
+    for i in range(n_jump):
+        opts = dict(sizes=[5, 40, 300], sfi=rng.choice([3, 4]), fps_ms=rng.choice([33, 40]), gop=rng.choice([2, 3]), nals_max=1,
+                    audio_sizes=[30, 200], audio_ms=None, start_ts=rng.choice([0, 5000]))
+        opts["jump"] = (rng.randrange(6, 20), rng.choice([-3000, -1500, 12000, 40000]))
+        ms = gen_stream(rng, rng.choice(["avc", "hevc"]), "aac", rng.randrange(10, 20), rng.randrange(14, 30), opts)
+        joins = {rng.randrange(0, len(ms)): ["Jt:1"]}
+        yield Case(e2e_line(rng.choice([100, 400]), 1, 1, ms, joins, wk=0, tsgop=rng.choice([0, 1])), cls="e2e-jump")
     # late sequence headers (after the probe / analysis windows): known limitation classes
     for k in (17, 20):
         ms = gen_stream(rng, "avc", "aac", 6, k + 8, dict(vsh_at=k + 2, video_start=23 * (k + 2), sizes=[9], audio_sizes=[8], sfi=4))
@@ -696,39 +725,91 @@ def subseq_match(expected, got, eq):
     return None
 
 
+def read_pmt_packet(pkt):
+    """one PMT packet -> {pid: (stream_type, descriptors)}"""
+    pid1, pmt = R09.ref_section(pkt)
+    if pmt["table_id"] != 2:
+        raise R09.Bad("not a PMT")
+    d = pmt["data"]
+    pil = ((d[2] & 15) << 8) | d[3]
+    es = d[4 + pil:]
+    streams = {}
+    i = 0
+    while i < len(es):
+        st, pid, eil = es[i], ((es[i + 1] & 31) << 8) | es[i + 2], ((es[i + 3] & 15) << 8) | es[i + 4]
+        streams[pid] = (st, R09.ref_descriptors(es[i + 5:i + 5 + eil]))
+        i += 5 + eil
+    return pid1, pmt["ext"], pmt["version"], streams
+
+
 def demux_ts(data):
-    """all TS packets (PAT/PMT excluded) -> {pid: [unit dict(pts, dts, rai, payload, first_index)]}; checks counters per PID"""
+    """a conforming demultiplexer of one program: PAT (PID 0) names the PMT PID, the PMT in force names the elementary
+    streams; packets of a PID the PMT in force does not announce are IGNORED; a changed PMT must carry another
+    version_number.  -> ({pid: [unit dict(pts, dts, rai, sid, payload, index, stype)]}, number of PMT versions seen)"""
     if len(data) % 188:
         raise R09.Bad("TS output is %d bytes" % len(data))
-    per = {}
-    for k in range(0, len(data), 188):
-        d = R09.ref_ts_packet(data[k:k + 188])
-        per.setdefault(d["pid"], []).append((k // 188, d))
-    out = {}
-    for pid, pk in per.items():
-        units = []
-        prev = None
-        for idx, d in pk:
-            if d["disc"]:
-                raise R09.Bad("discontinuity_indicator")
-            if not d["afc"] & 1:
-                raise R09.Bad("packet without payload on PID 0x%x" % pid)
-            if prev is not None and d["cc"] != (prev + 1) % 16:
-                raise R09.Bad("continuity counter jumps from %d to %d on PID 0x%x" % (prev, d["cc"], pid))
-            prev = d["cc"]
-            if d["pusi"]:
-                units.append([idx, [d]])
-            else:
-                if not units:
-                    raise R09.Bad("PID 0x%x does not start with a unit start" % pid)
-                units[-1][1].append(d)
-        res = []
-        for idx, ds in units:
+    pmt_pid = None
+    streams = None
+    version = None
+    nver = 0
+    cur = {}        # pid -> (last cc, [idx, [packets]] of the unit being collected)
+    done = {}       # pid -> finished units
+    last_cc = {}
+
+    def finish(pid):
+        u = cur.pop(pid, None)
+        if u is not None:
+            idx, ds, stype = u
             pes = R09.ref_pes(b"".join(x["payload"] for x in ds))
-            res.append(dict(pts=pes["pts"], dts=pes["dts"] if pes["dts"] is not None else pes["pts"], rai=ds[0]["rai"], sid=pes["sid"],
-                            payload=pes["payload"], index=idx))
-        out[pid] = res
-    return out
+            done.setdefault(pid, []).append(dict(pts=pes["pts"], dts=pes["dts"] if pes["dts"] is not None else pes["pts"], rai=ds[0]["rai"],
+                                                 sid=pes["sid"], payload=pes["payload"], index=idx, stype=stype))
+
+    for k in range(0, len(data), 188):
+        pkt = data[k:k + 188]
+        d = R09.ref_ts_packet(pkt)
+        pid = d["pid"]
+        if pid == 0:
+            pid0, pat = R09.ref_section(pkt)
+            if pat["table_id"] != 0:
+                raise R09.Bad("PID 0 does not carry a PAT")
+            progs = [((pat["data"][i] << 8) | pat["data"][i + 1], ((pat["data"][i + 2] & 31) << 8) | pat["data"][i + 3]) for i in range(0, len(pat["data"]), 4)]
+            if len(progs) != 1:
+                raise R09.Bad("PAT with %d programs" % len(progs))
+            pmt_pid = progs[0][1]
+            continue
+        if pmt_pid is not None and pid == pmt_pid:
+            _, _, ver, st = read_pmt_packet(pkt)
+            if streams is not None and st != streams and ver == version:
+                raise R09.Bad("the PMT changed but kept version_number %d" % ver)
+            if streams is None or st != streams:
+                nver += 1
+                # streams that are no longer announced end here
+                for p in list(cur):
+                    if p not in st:
+                        finish(p)
+            streams, version = st, ver
+            continue
+        if streams is None or pid not in streams:
+            continue          # not (yet) announced: a conforming demultiplexer ignores it
+        if d["disc"]:
+            raise R09.Bad("discontinuity_indicator")
+        if not d["afc"] & 1:
+            raise R09.Bad("packet without payload on PID 0x%x" % pid)
+        if pid in last_cc and d["cc"] != (last_cc[pid] + 1) % 16:
+            raise R09.Bad("continuity counter jumps from %d to %d on PID 0x%x" % (last_cc[pid], d["cc"], pid))
+        last_cc[pid] = d["cc"]
+        if d["pusi"]:
+            finish(pid)
+            cur[pid] = (k // 188, [d], streams[pid][0])
+        else:
+            if pid not in cur:
+                if pid in done:
+                    raise R09.Bad("PID 0x%x: continuation packet without a unit start" % pid)
+                continue      # joined in the middle of a unit that started before the PID was announced
+            cur[pid][1].append(d)
+    for p in list(cur):
+        finish(p)
+    return done, nver
 
 
 def split_adts(b):
@@ -812,22 +893,15 @@ def check_video_unit(u, e):
 
 
 def ts_clock_check(pairs, what):
-    """pairs: [(90 * published time, value33, first published time of the track, published time)]: one constant per
-    track -> (error or None, known-finding flag).  Frames stamped below the first frame of their track (the class of
-    F-23) are judged separately: the constant is taken from the frames that are not."""
+    """pairs: [(90 * published time, value33, first published time of the track, published time)]: ONE constant per
+    track on the 33-bit clock, also for frames stamped below the first frame of their track (clock restart, 32-bit
+    wrap of the RTMP time stamp; F-23, fixed) -> (error or None, False)"""
     base = None
-    bad = None
     for want, got, first_ts, ts in pairs:
-        below = first_ts is not None and ts < first_ts
-        if below:
-            continue
         if base is None:
             base = (got - want) % M33
         elif (got - want) % M33 != base:
             return ("%s clock: %d for published time %d (constant of the track %d)" % (what, got, ts, base), False)
-    for want, got, first_ts, ts in pairs:
-        if first_ts is not None and ts < first_ts and base is not None and (got - want) % M33 != base:
-            return ("%s clock: %d for published time %d below the track's first time %d (constant of the track %d)" % (what, got, ts, first_ts, base), True)
     return (None, False)
 
 
@@ -854,33 +928,27 @@ def parse_patpmt(pp):
     return streams
 
 
-def check_ts_stream(pub, streams, data, disposed, suffix):
-    """the property for one transport stream (PAT/PMT already read into `streams`, `data` = the packets behind it).
+def check_ts_stream(pub, data, disposed, suffix):
+    """the property for one transport stream (`data` = all its packets, PAT/PMT included).
     suffix=False: the stream holds everything from the start (c06.ts); suffix=True: a consumer that joined somewhere:
     every track must be a tail of what was published.  Returns (ok, why); why starts with a finding tag when it is one."""
     try:
-        units = demux_ts(data)
+        units, nver = demux_ts(data)
     except (R09.Bad, ValueError, IndexError) as ex:
         return False, "TS output does not demultiplex: %s" % ex
     for pid in units:
         if pid not in (0x100, 0x101):
             return False, "unexpected PID 0x%x" % pid
-    late = []
-    msg_kinds = [p["kind"] for p in pub if p["kind"] not in ("F", "D")]
-    first_v = next((i for i, k in enumerate(msg_kinds) if k in ("vsh", "video")), None)
-    first_a = next((i for i, k in enumerate(msg_kinds) if k in ("ash", "audio")), None)
-    late_v = first_v is not None and first_v >= 16
-    late_a = first_a is not None and first_a >= 16
+    if nver > 3:
+        return False, "%d versions of the PMT for two tracks" % nver
     # ---- video
     vexp = expected_video_units(pub)
     vun = units.get(0x100, [])
     if vun:
         codec = vexp[0]["codec"] if vexp else None
         want_type = {"avc": 0x1B, "hevc": 0x24}.get(codec)
-        if 0x100 not in streams or streams[0x100][0] != want_type:
-            if not late_v:
-                return False, "video PID 0x100 carries %s but the PMT declares %r" % (codec, streams.get(0x100))
-            late.append("video PID 0x100 carries %s but the PMT declares %r" % (codec, streams.get(0x100)))
+        if any(u["stype"] != want_type for u in vun):
+            return False, "video PID 0x100 carries %s but the PMT declares stream type 0x%x" % (codec, vun[0]["stype"])
 
     def veq(e, u):
         return check_video_unit(u, e) is None
@@ -959,10 +1027,8 @@ def check_ts_stream(pub, streams, data, disposed, suffix):
         return False, "audio PES payload is not a sequence of ADTS frames: %s" % ex
     if aun:
         want = {"aac": 0x0F, "opus": 0x06}.get(acodec)
-        if 0x101 not in streams or streams[0x101][0] != want:
-            if not late_a:
-                return False, "audio PID 0x101 carries %s but the PMT declares %r" % (acodec, streams.get(0x101))
-            late.append("audio PID 0x101 carries %s but the PMT declares %r" % (acodec, streams.get(0x101)))
+        if any(u["stype"] != want for u in aun):
+            return False, "audio PID 0x101 carries %s but the PMT declares stream type 0x%x" % (acodec, aun[0]["stype"])
     if suffix:
         mand = [x for x in aexp if x[3]]
         if len(got) > len(mand):
@@ -1008,10 +1074,8 @@ def check_ts_stream(pub, streams, data, disposed, suffix):
                 kf = e2
             else:
                 return False, e2
-    if late:
-        return False, "LATE-PMT " + late[0]
     if kf:
-        return False, "BELOW-BASE " + kf
+        return False, kf
     return True, ""
 
 
@@ -1030,22 +1094,28 @@ def oracle_ts(line_items, out):
         if (has_v and has_a) or len(msgs) >= 16:
             return False, "no output although the probe window was complete"
         return True, ""
-    if pats != [0]:
-        return False, "PAT/PMT must come exactly once, first (positions %r)" % pats
-    try:
-        streams = parse_patpmt(tok_bytes(items[0][2:]))
-    except (R09.Bad, ValueError, IndexError) as ex:
-        return False, "PAT/PMT: %s" % ex
-    ev = []
-    for x in tsi:
-        f = x.split(":")
-        ev.append(dict(nested=f[1] == "1", pid=num(f[2]), sid=num(f[3]), key=f[4] == "1", dts=num(f[5]), pts=num(f[6]), cts=num(f[7]),
-                       boundary=f[9] == "1", packets=tok_bytes(f[11])))
-    for e in ev:
-        if e["boundary"] and e["pid"] == 0x100 and not e["key"]:
-            return False, "boundary flag on a non-key video frame"
+    if not pats or pats[0] != 0:
+        return False, "PAT/PMT must come first (positions %r)" % pats
+    data = b""
+    prev = None
+    for x in items:
+        if x.startswith("P:"):
+            pp = tok_bytes(x[2:])
+            try:
+                st = parse_patpmt(pp)
+            except (R09.Bad, ValueError, IndexError) as ex:
+                return False, "PAT/PMT: %s" % ex
+            if prev is not None and not (set(prev) < set(st) and all(st[k] == prev[k] for k in prev)):
+                return False, "PAT/PMT repeated without announcing a new track"
+            prev = st
+            data += pp
+        elif x.startswith("T:"):
+            f = x.split(":")
+            if f[9] == "1" and num(f[2]) == 0x100 and f[4] != "1":
+                return False, "boundary flag on a non-key video frame"
+            data += tok_bytes(f[11])
     disposed = any(p["kind"] == "D" for p in pub[-1:])
-    return check_ts_stream(pub, streams, b"".join(e["packets"] for e in ev), disposed, False)
+    return check_ts_stream(pub, data, disposed, False)
 
 
 def analysis_end(pub):
@@ -1169,8 +1239,6 @@ def oracle_rtsp(line_items, out):
     elif vframes and vsh is not None and any(p["kind"] == "video" and p["nals"] for p in pub):
         exp = [fr for fr in vframes if [x for x in fr["nals"] if nal_type(fr["codec"], x) != AUD_TYPE[fr["codec"]]]]
         if exp:
-            if vsh["codec"] == "avc" and vsh.get("counts") != (1, 1) and not late_v:
-                return False, "MULTI-PS no video packet: the AVC sequence header carries %d SPS and %d PPS" % vsh["counts"]
             if not late_v:
                 return False, "no video packet although %d frames and a sequence header were published" % len(exp)
             late.append("no video packet although %d frames and a sequence header were published" % len(exp))
@@ -1218,9 +1286,95 @@ def oracle_rtsp(line_items, out):
 
 
 # ================================================================================================== oracle: c06.e2e
-def check_rtp_track(codec_kind, pkts, exp, rate, what):
+def read_m3u8(text):
+    """RFC 8216 media playlist -> (target duration, [(EXTINF seconds, uri)])"""
+    lines = text.decode("latin-1").split("\n")
+    if not lines or lines[0].strip() != "#EXTM3U":
+        raise ValueError("no #EXTM3U")
+    target, items, dur = None, [], None
+    for ln in lines[1:]:
+        ln = ln.strip()
+        if ln.startswith("#EXT-X-TARGETDURATION:"):
+            target = int(ln.split(":", 1)[1])
+        elif ln.startswith("#EXTINF:"):
+            dur = float(ln.split(":", 1)[1].split(",")[0])
+        elif ln and not ln.startswith("#"):
+            if dur is None:
+                raise ValueError("segment without EXTINF")
+            items.append((dur, ln))
+            dur = None
+    if target is None:
+        raise ValueError("no EXT-X-TARGETDURATION")
+    return target, items
+
+
+def read_hls_ops(v, frag_ms):
+    """the calls hls.Muxer made on the file system layer, in order.  -> (error or None, [segment bytes in creation order]).
+    Checked at EVERY play list version written: each listed segment exists by then, its EXTINF rounds to at most the
+    target duration, and the duration it is listed with is the span of the time stamps it holds, up to the frame
+    that ended it (RFC 8216 4.3.2.1: the duration of the media segment)"""
+    order, content, closed, listed = [], {}, set(), set()
+    for op in v.split(";"):
+        f = op.split(":")
+        if f[0] == "cr" and f[1].endswith(".ts"):
+            order.append(f[1])
+            content[f[1]] = b""
+        elif f[0] == "wr" and f[1] in content:
+            content[f[1]] += tok_bytes(f[2])
+        elif f[0] == "cl":
+            closed.add(f[1])
+        elif f[0] == "wf" and f[1].endswith("playlist.m3u8.bak"):
+            try:
+                target, items = read_m3u8(tok_bytes(f[2]))
+            except ValueError as ex:
+                return "play list: %s" % ex, None
+            for dur, uri in items:
+                name = next((n for n in order if n.endswith("/" + uri)), None)
+                if name is None or name not in closed:
+                    return "play list names %s, which is not a finished segment" % uri, None
+                if int(dur + 0.5) > target:
+                    return "EXTINF %.3f above the target duration %d" % (dur, target), None
+                listed.add((name, dur))
+    # the durations, against what the segments hold in the end (the frame that ended a segment is written after the play list)
+    def stamps_of(name):
+        units, _ = demux_ts(content[name])
+        return [u["dts"] if pid == 0x100 else u["pts"] for pid, us in units.items() for u in us]
+    for name, dur in sorted(listed):
+        uri = name.rsplit("/", 1)[1]
+        try:
+            stamps = stamps_of(name)
+        except (R09.Bad, ValueError, IndexError) as ex:
+            return "segment %s: %s" % (uri, ex), None
+        if not stamps:
+            continue
+        first = min(stamps)
+        span = (max(stamps) - first) / 90000.0
+        bound = span
+        k = order.index(name)
+        if k + 1 < len(order):
+            try:
+                nst = stamps_of(order[k + 1])
+            except (R09.Bad, ValueError, IndexError):
+                nst = []
+            # the frame that ended the segment counts (it is in the next segment, behind the audio FlushAudio
+            # handed over when that segment was opened), unless it forced the split (more than 10 target durations ahead)
+            for t in nst:
+                nxt = (t - first) / 90000.0
+                if 0 <= nxt <= frag_ms * 10 / 1000.0:
+                    bound = max(bound, nxt)
+        if dur > bound + 0.0015:
+            return "segment %s is listed with EXTINF %.3f but holds %.3f s of media (up to the frame that ended it: %.3f s)" % (uri, dur, span, bound), None
+    return None, [content[n] for n in order]
+
+
+GOP_START_TYPES = {"avc": (5, 7, 8), "hevc": tuple(range(16, 24)) + (32, 33, 34)}
+
+
+def check_rtp_track(codec_kind, pkts, exp, rate, what, gate=False):
     """pkts: [dict(m, seq, ts, payload)] of one track of one subscriber; exp: [(units-or-frame, ts_ms)] published; the
-    recovered frames must be a tail of exp"""
+    recovered frames must be a tail of exp.  gate (video with OutWaitKeyFrameFlag): the stream starts at the first
+    unit that starts a GOP (IDR / IRAP picture or parameter set) - the units of that frame in front of it are not
+    sent - and that is where it must start"""
     for i, p in enumerate(pkts):
         if p["seq"] != i & 0xFFFF:
             return "%s sequence number %d at position %d" % (what, p["seq"], i)
@@ -1249,6 +1403,13 @@ def check_rtp_track(codec_kind, pkts, exp, rate, what):
                 got = [p["payload"] for p in g]
         except ValueError as ex:
             return "%s depacketisation: %s" % (what, ex)
+        if gate and g is groups[0]:
+            if not got or nal_type(codec_kind, got[0]) not in GOP_START_TYPES[codec_kind]:
+                return "%s: a player that waits for a key frame starts with a unit that starts no GOP" % what
+            k = len(u) - len(got)
+            if k < 0 or u[k:] != got or any(nal_type(codec_kind, x) in GOP_START_TYPES[codec_kind] for x in u[:k]):
+                return "%s first frame at %d ms is not the published one from its first GOP-start unit on" % (what, ts)
+            got = u
         if got != u:
             return "%s frame at %d ms differs from the published one" % (what, ts)
         want = ts * rate // 1000
@@ -1262,6 +1423,8 @@ def oracle_e2e(cfg, line_items, out):
         return False, "group run failed: " + out[:80]
     msg_items = [x for x in line_items if x[:2] in ("M:", "I:")]
     pub = read_published(msg_items)
+    cf = cfg.split(":")
+    wk = len(cf) >= 5 and cf[3] == "1"
     parts = {}
     if out != "-":
         for p in out.split("|"):
@@ -1269,37 +1432,33 @@ def oracle_e2e(cfg, line_items, out):
             parts[k] = v
     finding = None
     for k, v in parts.items():
-        if k.startswith("ts") or k == "hls":
-            if k == "hls":
+        if k.startswith("ts") or k == "hlsops":
+            if k == "hlsops":
                 if v == "none":
                     continue
+                err, segs = read_hls_ops(v, int(cf[0]))
+                if err:
+                    return False, "hls: " + err
+                if not segs:
+                    continue
                 data = b""
-                streams = None
-                for seg in v.split(","):
-                    sb = tok_bytes(seg)
+                for sb in segs:
                     try:
-                        st = parse_patpmt(sb[:376])
+                        parse_patpmt(sb[:376])
                     except (R09.Bad, ValueError, IndexError) as ex:
                         return False, "hls segment does not start with PAT/PMT: %s" % ex
-                    streams = streams or st
-                    if st != streams:
-                        return False, "hls segments announce different programs"
-                    data += sb[376:]
+                    data += sb
             else:
-                b = tok_bytes(v)
-                if not b:
+                data = tok_bytes(v)
+                if not data:
                     continue
                 try:
-                    streams = parse_patpmt(b[:376])
+                    parse_patpmt(data[:376])
                 except (R09.Bad, ValueError, IndexError) as ex:
                     return False, "%s does not start with PAT/PMT: %s" % (k, ex)
-                data = b[376:]
-            ok, why = check_ts_stream(pub, streams, data, True, True)
+            ok, why = check_ts_stream(pub, data, True, True)
             if not ok:
-                if why.startswith(("LATE-PMT", "BELOW-BASE")):
-                    finding = finding or why
-                else:
-                    return False, "%s: %s" % (k, why)
+                return False, "%s: %s" % (k, why)
         elif k.startswith("rtp"):
             sid = k[3:]
             raw = tok_bytes(parts.get("sdp" + sid, "-"))
@@ -1336,7 +1495,7 @@ def oracle_e2e(cfg, line_items, out):
                     u = [x for x in fr["nals"] if nal_type(fr["codec"], x) != AUD_TYPE[fr["codec"]]]
                     if u:
                         exp.append((u, fr["ts"]))
-                err = check_rtp_track(codec, vp, exp, 90000, "video")
+                err = check_rtp_track(codec, vp, exp, 90000, "video", gate=wk)
                 if err:
                     return False, "%s: %s" % (k, err)
             if ap:
@@ -1379,14 +1538,8 @@ def classify_finding(c, out):
     r = oracle(c, out)
     if r is None or r[0]:
         return None
-    if r[1].startswith("BELOW-BASE"):
-        return "C06-F23-timestamp-below-track-base"
-    if r[1].startswith("LATE-PMT"):
-        return "C06-ts-late-track-not-in-pmt"
     if r[1].startswith("LATE-SH"):
         return "C06-rtsp-late-sequence-header"
-    if r[1].startswith("MULTI-PS"):
-        return "C06-rtsp-avc-several-parameter-sets"
     return None
 
 
